@@ -84,6 +84,31 @@ fn main() {
         });
         sink.merge(ss);
     }
+    // records carrying a message whose opaque blob has a shape of its own (length prefix, list of one, DER ...), CertificateStatus
+    // over all 256 status types
+    {
+        let shapes = cat::content_shapes();
+        let mut recs: Vec<vcommon::en::W> = Vec::new();
+        for b in &shapes {
+            for m in cat::opaque_carriers(b) {
+                recs.push(cat::record(0x16, 0x0303, |w| { w.append(&m); }));
+            }
+        }
+        for st in 0..=255u8 {
+            for b in shapes.iter().step_by(5) {
+                recs.push(cat::record(0x16, 0x0303, |w| {
+                    w.append(&cat::hs(22, |w| {
+                        w.u8(st);
+                        w.block(3, "blob", |w| {
+                            w.bytes(b);
+                        });
+                    }));
+                    w.append(&cat::hs(14, |_| {}));
+                }));
+            }
+        }
+        sink.merge(struct_sweep(&run, &targets, &recs, 0, &sfx, 16, &extra));
+    }
     // hellos with the extension blocks of deployed stacks and every "semantic" extension in first / middle position
     // of a multi-message record (a decoder that looks into the block of one message must still return the others)
     {
